@@ -238,13 +238,3 @@ func (h *HarnessRun) noteInconclusive(msg string) {
 	h.inconclusive++
 	h.mu.Unlock()
 }
-
-// ---- hooks used by the concurrency mode (C14) -------------------------------
-
-type parState struct{}
-
-func (p *parState) noteDecision()                            {}
-func (p *parState) onceDo(ex *Exec, once Ptr, f Value) Value { return nil }
-func (p *parState) mutexOp(ex *Exec, m Ptr, lock bool) Value { return nil }
-func (ex *Exec) noteRead(p Ptr)                              {}
-func (ex *Exec) noteWrite(p Ptr)                             {}
